@@ -23,7 +23,7 @@ RULE = ('cases are histories of 2-6 encrypt/decrypt exchanges (PGPy->PGPy+refere
 TIERS = {"quick": {"runs": 5000, "budget_s": 90}, "thorough": {"runs": 200000, "budget_s": 1500}}
 PROBES = ('recipients>=3', 'mixed_key_and_passphrase', 'skesk_before_pkesk', 'two_enc_subkeys_one_key', 'supplied_session_key',
           'signed_then_encrypted', 'rsa_recipient', 'ecdh_nist', 'ecdh_cv25519', 'ref_sed_legacy', 'ref_partial_lengths',
-          'ref_skesk_direct_key', 'ref_s2k_simple', 'ref_s2k_salted', 'body_empty', 'body_big', 'armor_hop', 'reframe_hop',
+          'ref_skesk_direct_key', 'ref_skesk_wrap_cipher_differs', 'ref_s2k_simple', 'ref_s2k_salted', 'body_empty', 'body_big', 'armor_hop', 'reframe_hop',
           'marker_packet', 'encrypt_refused', 'from_file')
 HASHSEED_SENSITIVE = False
 
@@ -62,7 +62,8 @@ def generate(rng, tier):
                     esks.append({'t': 'pk', 'key': who})
                 else:
                     esks.append({'t': 'sk', 'pass': who, 's2k': rng.choice([0, 1, 3, 3]), 'hash': rng.choice([8, 2, 10, 1, 11, 9]),
-                                 'count': rng.choice([0, 16, 96, 200]), 'direct': rng.random() < 0.3})
+                                 'count': rng.choice([0, 16, 96, 200]), 'direct': rng.random() < 0.3,
+                                 'wrap': rng.choice([None, None, 7, 8, 9, 3, 2, 11, 13])})
             if any(e['t'] == 'sk' and e['s2k'] == 0 for e in esks):
                 # an empty passphrase tried against a simple-S2K packet hashes nothing at all (PGPy divides by
                 # zero there instead of moving on to the next packet); that corner is left out
@@ -287,7 +288,7 @@ def _encrypt_step(pgpy, R, step, recips, ctx, shapes):
         ctx.viol('C03:supplied-session-key-not-used', 'the supplied session key is not the one recipients recover')
     shapes.append('E:%s:%d:%d:%s' % ('+'.join(sorted(set(x.split('+')[-1] or x for x in _kinds(R, recips)))), step['cipher'],
                                      step['msg']['compression'], step['msg']['body']))
-    ctx.event(step['id'], 'encrypt', len(recips), step['cipher'], len(orig_bytes))
+    ctx.event(step['id'], 'encrypt', len(recips), step['cipher'], step['msg']['size'])     # no octet counts: signature lengths are noise
 
 
 def case_seed(ctx):
@@ -336,7 +337,10 @@ def _ref_encrypt_step(pgpy, R, step, ctx, shapes):
                 ctx.probe('ref_s2k_simple')
             if e['s2k'] == 1:
                 ctx.probe('ref_s2k_salted')
-            body = renc.build_skesk(cid, e['s2k'], e['hash'], e['pass'], salt, e['count'], None if e.get('direct') else (cid, key))
+            wrap = cid if (e.get('direct') or not e.get('wrap')) else e['wrap']
+            if wrap != cid:
+                ctx.probe('ref_skesk_wrap_cipher_differs')
+            body = renc.build_skesk(wrap, e['s2k'], e['hash'], e['pass'], salt, e['count'], None if e.get('direct') else (cid, key))
             out += encode_packet(3, body, 'old' if step['framing'] == 'old' else 'new')
     if not out:
         return
@@ -372,4 +376,4 @@ def _ref_encrypt_step(pgpy, R, step, ctx, shapes):
             continue
         _compare(ctx, 'PGPy reading a reference-peer message (%s)' % kind, want, dec_bytes, 'C03:foreign-roundtrip')
     shapes.append('R:%s:%s:%d:%d:%s' % (step['container'], step['framing'], cid, spec['compression'], spec['body']))
-    ctx.event(step['id'], 'ref_encrypt', len(step['esks']), cid, len(inner))
+    ctx.event(step['id'], 'ref_encrypt', len(step['esks']), cid, spec['size'])
